@@ -360,7 +360,8 @@ Section Net.
      _to_dict stores every array as a nested list and _from_dict rebuilds np.array(list); station order (a JSON
      object keeps key order), voltages, angles, limits, names and a matrix with at least one row come back as they
      were.  A matrix WITHOUT rows (every constraint removed: shape (0, n)) is serialised as [] and comes back with
-     shape (0,) when `lossy` — the harness probes that on every run.  The reloaded network is then degenerate
+     shape (0,) when `lossy` (the code before d5bb06b; since then _from_dict reshapes to (constraints, stations)).
+     Which one applies is read from the source (Gen/C12Shape.v) and probed on the implementation on every run.  The reloaded network is then degenerate
      (`jdeg`): pd.DataFrame(matrix, columns=station_ids) raises ValueError for n <> 1 stations, so
      constraints_as_df and hence add_constraint raise — add_constraint AFTER it appended the limit to magnitudes —
      and every constraint_current raises ValueError (matmul of a (0,) array with the schedule). *)
@@ -368,6 +369,9 @@ Section Net.
 
   Definition json_reload (lossy : bool) (j : jnet) : jnet :=
     mkJ (jn j) (jdeg j || (lossy && match cmat (jn j) with Some [] => true | _ => false end)).
+
+  (* what the tree under test does (tools/gen_c12.py reads _from_dict: reshape to (constraints, stations) or not) *)
+  Definition repo_json_lossy : bool := negb json_keeps_matrix_shape.
 
   Definition jstep (o : op) (j : jnet) : option string * jnet :=
     let n := jn j in
@@ -576,5 +580,5 @@ Definition obs_eqb (a b : obs) : bool :=
 
 (* the in-place mode recorded by the harness must be the one read from the class by tools/gen_c12.py *)
 Definition check_c12 (c : c12case) : bool :=
-  inplace_mode_eqb (k_mode c) repo_inplace_mode &&
+  inplace_mode_eqb (k_mode c) repo_inplace_mode && Bool.eqb (k_lossy c) repo_json_lossy &&
   list_eqb obs_eqb (observe_all (k_mode c) (k_lossy c) (k_ops c) (mkJ (net0 (A := Q)) false)) (k_obs c).
